@@ -21,14 +21,23 @@
   * `primitives_total` — on a consistent table every edit primitive except `AddColumn` is total, and `AddColumn` can
     only fail with `swapOrderUnmodelled`.
 
-  Missing: the emit side after `Diff` for arbitrary pairs (the nil-dereference in `hasChangedType` and the two emitter
-  sites above are reachable only from shapes outside the well-formed space), and the
+  * `diff_and_print_never_panic` — **`Diff`, `StringUp` and `StringDown` never panic**: for two scripts of any length
+    (vocabulary of `Stmt.elemSafe`) the reference engine accepts, the MySQL reader model loads both, `Migration.Diff`
+    returns — `hasChangedType` never meets a nil type (every loaded column carries one), the second column loop's
+    `swapOrder` always moves the column it just appended forward (`mergePos_le`), every map lookup is followed by a read
+    inside its slice (Proofs/DiffTotal) —, and on the state it leaves `MigrationUp` and `MigrationDown` both return:
+    every table is fixed by `Arrange`, and every index record — tagged by `Diff` or not, with its `previous` — is plain
+    or unique, which is all `Index.migrationUp(modify)[0]` needs (Proofs/PrintTotal).  `load_and_print_never_panic`:
+    likewise for one loaded script.
+
+  Missing: the
   option-restore site for readers that build options without expression (SQLite/Postgres: a recorded finding).
   Panics inside the third-party parsers cannot be modelled; that clause is searched by the malformed stream, not proved.
 -/
 import SqlizeModel.Impl.Api
 import SqlizeModel.Spec.Scope
 import SqlizeModel.Proofs.ReaderPending
+import SqlizeModel.Proofs.PrintTotal
 
 namespace Sqlize.C09
 open Sqlize Sqlize.Spec
@@ -95,6 +104,32 @@ theorem primitives_total (t : Table) (h : t.Inv) :
    fun o n => Table.renameColumn_total t o n h, fun i => Table.addIndex_total t i h,
    fun n => Table.removeIndex_total t n h, fun o n => Table.renameIndex_total t o n h,
    fun f => Table.addForeignKey_total t f h, fun n => Table.removeForeignKey_total t n h⟩
+
+/-- `Diff`, `StringUp`, `StringDown` never panic on two loaded, engine-accepted scripts (MySQL reader model) -/
+theorem diff_and_print_never_panic (g : Globals) (hg : g.dialect = .mysql) (rc : Bool) (old new : List Stmt) (dbO dbN : DB)
+    (ho : old.all Stmt.elemSafe = true) (hn : new.all Stmt.elemSafe = true)
+    (heo : execAll rc [] old = some dbO) (hen : execAll rc [] new = some dbN) :
+    ∃ d outU outD, loadAndDiff g old new = .ok d ∧ d.migrationUp g = .ok (d, outU) ∧ d.migrationDown g = .ok (d, outD) :=
+  diff_print_total g hg rc old new dbO dbN ho hn heo hen
+
+theorem load_and_print_never_panic (g : Globals) (hg : g.dialect = .mysql) (rc : Bool) (ss : List Stmt) (db : DB)
+    (hs : ss.all Stmt.elemSafe = true) (he : execAll rc [] ss = some db) :
+    ∃ m outU outD, readScript g {} ss = .ok m ∧ m.migrationUp g = .ok (m, outU) ∧ m.migrationDown g = .ok (m, outD) :=
+  load_print_total g hg rc ss db hs he
+
+-- non-vacuity: a pair with a redefined index, a dropped and an added column, a new and a dropped table
+def exO : List Stmt :=
+  [.createTable "t" 0 [{ name := "a", typ := "int(11)" }, { name := "b", typ := "int(11)" }] ["a"],
+   .createIndex "t" "i" ["a", "b"] true "",
+   .createTable "gone" 0 [{ name := "x", typ := "text" }] []]
+def exN : List Stmt :=
+  [.createTable "t" 0 [{ name := "a", typ := "bigint(20)" }, { name := "c", typ := "text" }] ["a"],
+   .createIndex "t" "i" ["c"] false "HASH",
+   .createTable "fresh" 0 [{ name := "y", typ := "text" }] []]
+example : exO.all Stmt.elemSafe = true ∧ exN.all Stmt.elemSafe = true ∧
+    (execAll true [] exO).isSome = true ∧ (execAll true [] exN).isSome = true := by decide
+example : ∃ d, loadAndDiff {} exO exN = .ok d ∧ (d.migrationUp {}).toOption.map (fun r => r.2.length) = some 3 ∧
+    (d.migrationDown {}).toOption.map (fun r => r.2.length) = some 3 := ⟨_, by rfl, by rfl, by rfl⟩
 
 -- non-vacuity: an inconsistent map does panic in the model (so the invariant is what keeps the sites unreachable)
 example : (({ name := "t", action := .add, colIdx := [("a", 3)] } : Table).removeColumn "a") =
